@@ -6,7 +6,7 @@ log = sys.argv[1] if len(sys.argv) > 1 else None
 verdicts = {}
 if log and os.path.exists(log):
     for l in open(log):
-        m = re.match(r'(C\d+-(?:w[23])?m\d) (C\d+): exit=(\d+) violations=(\d+)\s*(.*)', l.strip())
+        m = re.match(r'(C\d+-(?:w\d+)?m\d) (C\d+): exit=(\d+) violations=(\d+)\s*(.*)', l.strip())
         if m:
             verdicts.setdefault(m.group(1), {})[m.group(2)] = {"exit": int(m.group(3)), "violations": int(m.group(4)), "first": m.group(5)[:220]}
 base = '/verif/seeded'
